@@ -1259,7 +1259,7 @@ def make_call(b, g, env, sig, marked, allow_absent=True, banned_w=(), banned_r=(
             actuals[nm] = lit(d['E'])
             continue
         if d['role'] == 'arr':
-            e, a = _array_actual(b, g, full_env, d, used_w, banned_w, banned_r)
+            e, a = _array_actual(b, g, env, d, used_w, banned_w, banned_r)
             if e is None:
                 return None
             if d['intent'] != 'in':
@@ -1278,16 +1278,16 @@ def make_call(b, g, env, sig, marked, allow_absent=True, banned_w=(), banned_r=(
             elif F('act_elem') and env.arrays(t) and g.chance(50):
                 actuals[nm] = gen.element(g, env, g.pick(env.arrays(t)), 0)
             else:
-                sc = full_env.scalars(t) + list(full_env.active_loops if t == 'int' else [])
+                sc = env.scalars(t) + list(env.active_loops if t == 'int' else [])
                 if sc and g.chance(80):
                     a = g.pick(sc)
-                    actuals[nm] = gen.designator_for(full_env, a) if a in full_env.vars else var(a)
+                    actuals[nm] = gen.designator_for(env, a) if a in env.vars else var(a)
                 else:
                     actuals[nm] = default_of(t)
             continue
         # scalar inout / out
-        sc = [a for a in full_env.scalars(t, writable=True) if a not in used_w and a not in banned_w
-              and not full_env.vars[a].get('fuel') and not full_env.vars[a].get('path')]
+        sc = [a for a in env.scalars(t, writable=True) if a not in used_w and a not in banned_w
+              and not env.vars[a].get('fuel') and not env.vars[a].get('path')]
         ar = [a for a in env.arrays(t, writable=True) if a not in used_w and a not in banned_w
               and not env.vars[a].get('path')]
         if F('act_elem') and ar and (g.chance(50) or not sc):
